@@ -10,6 +10,7 @@ import BigtoolsModel.BedSummary
 import BigtoolsModel.BBIWrite
 import BigtoolsModel.BBIWriteBed
 import BigtoolsModel.FileOf
+import BigtoolsModel.FileOfBed
 import BigtoolsModel.AutoSqlNTest
 /-! Driver commands `wig` and `bed`: the property-level observables of a written file, computed from the input
     by the model's specification-level functions (the byte-level writer/reader models are proved equal to
@@ -271,7 +272,19 @@ def bedBytesCase (c : Case) : List String :=
     let input := runs.map fun (n, es) => (nameBytes n, ((sizes.find? (·.1 == n)).map (·.2)).getD 0, es)
     let bytes := BW.writeBigBed ⟨nat (c.opt "ips" "1024"), nat (c.opt "bs" "256"), sorted⟩ autosql
       (ASN.fieldCount ASN.asciiCC true autosql) input
-    [s!"BYTES {bytes.length} {hex16 (fnv64 bytes)}"] ++ (if c.opt "dump" "0" == "1" then [s!"HEX {hex bytes}"] else [])
+    -- the theorem-carrying model `BBI.bedFileOf` (subject of `bed_model_roundtrip`) with the zoom directory / autoSql /
+    -- summary / zoom areas of these bytes must reproduce them exactly
+    let cs : List BBI.ChromBedIn := input.map fun ch => ⟨ch.1, ch.2.1, ch.2.2.map fun x => ⟨x.s, x.e, x.rest⟩⟩
+    let zc := (bytes.drop 6).headD 0 + 256 * (bytes.drop 7).headD 0
+    let fc := ASN.fieldCount ASN.asciiCC true autosql
+    let midLen := 240 + autosql.length + 1 + 40 + 8
+    let mk (tail : List Nat) : BBI.BOpts :=
+      ⟨nat (c.opt "ips" "1024"), nat (c.opt "bs" "256"), zc, 304 + autosql.length + 1 + 40, fc, fc, 304, 304 + autosql.length + 1, 0,
+       (bytes.drop 64).take midLen, tail⟩
+    let f0 := BBI.bedFileOf (mk []) cs
+    let same := (BBI.bedFileOf (mk (bytes.drop f0.bytes.length)) cs).bytes == bytes
+    [s!"BYTES {bytes.length} {hex16 (fnv64 bytes)}", s!"FILEOF {if same then "eq" else "differs"}"] ++
+      (if c.opt "dump" "0" == "1" then [s!"HEX {hex bytes}"] else [])
   | none => ["BYTES na"]
 
 end Drv
